@@ -626,6 +626,13 @@ func replay(cf *evid.CaseFile) error {
 		}
 		return freshOracle(&c)
 	}
+	if cf.Sub == "copies" {
+		var c CopyCase
+		if err := evid.Decode(cf.Gob, &c); err != nil {
+			return err
+		}
+		return copyOracle(&c)
+	}
 	if cf.Sub == "newcache" {
 		var c NewCacheCase
 		if err := evid.Decode(cf.Gob, &c); err != nil {
@@ -705,6 +712,79 @@ func hotWrappers(t *testing.T, goroutines, values int) {
 		c.Work = append(c.Work, w)
 	}
 	run(t, c, "inprocess")
+}
+
+// CopyCase: a Query is executed once, copied by value (a Query is a plain
+// struct with exported fields), the copy gets another group-by list, and both
+// are then executed by many goroutines at the same time.
+type CopyCase struct {
+	Rounds int
+	Open   fix.OpenCfg
+}
+
+func (c *CopyCase) Summary() string {
+	return fmt.Sprintf("one executed Query and its by-value copy with another group-by list, and two more such copies, each object executed %d times by a goroutine of its own, all at once (%+v)", c.Rounds, c.Open)
+}
+
+func copyOracle(c *CopyCase) error {
+	dir := fix.CaseDir()
+	defer os.RemoveAll(dir)
+	spec := gen.DataSpec{Recipe: &gen.Recipe{N: 900, Cols: []gen.ColSpec{
+		{Name: "x", Kind: gen.KMod, K: 4, Prefix: "x"}, {Name: "c", Kind: gen.KMod, K: 3, Prefix: "c"}, {Name: "b", Kind: gen.KMod, K: 5}}}}
+	rows := spec.Rows()
+	d := model.NewData(rows)
+	path, _, err := fix.Build(dir, rows, fix.WMemFile)
+	if err != nil {
+		return fmt.Errorf("INFRA: %v", err)
+	}
+	idx, _, err := fix.Open(path, c.Open)
+	if err != nil {
+		return fmt.Errorf("INFRA: %v", err)
+	}
+	defer fix.Safe(idx.Close)
+	taut := model.Not(model.Eq("b", "none"))
+	lists := [][]string{{"x"}, {"c"}, {"c", "x"}, {"b"}}
+	orig := fix.NewQuery(taut, lists[0])
+	res, xerr := fix.Exec(idx, orig)
+	if err := fix.CompareOutcome(d, taut, lists[0], res, xerr); err != nil {
+		return fmt.Errorf("first execution: %v", err)
+	}
+	qs := []*updog.Query{orig}
+	for _, gb := range lists[1:] {
+		cp := *orig
+		cp.GroupBy = append([]string(nil), gb...)
+		qs = append(qs, &cp)
+	}
+	_, errs := fanout(len(qs), func(g int) error {
+		for r := 0; r < c.Rounds; r++ {
+			k := g // one goroutine per object: a Query object holds the state of its execution
+			res, xerr := fix.Exec(idx, qs[k])
+			if err := fix.CompareOutcome(d, taut, lists[k], res, xerr); err != nil {
+				return fmt.Errorf("query object %d (group by %v; object 0 is the original, the others are by-value copies made after its first execution), round %d: %v", k, lists[k], r, err)
+			}
+		}
+		return nil
+	})
+	for _, e := range errs {
+		if e != nil {
+			return e
+		}
+	}
+	return nil
+}
+
+func runCopy(t interface{ Fatalf(string, ...any) }, c *CopyCase) {
+	evid.Inflight(prop, "copies", c, c.Summary())
+	err := copyOracle(c)
+	evid.ClearInflight(prop, "copies")
+	if err != nil && strings.HasPrefix(err.Error(), "INFRA:") {
+		panic(err.Error())
+	}
+	evid.Note("copied_query_executions", int64(4*c.Rounds))
+	evid.Case(true, c.Summary(), "copied-query-objects")
+	if err != nil {
+		fix.Fail(t, prop, "copies", c, c.Summary(), err)
+	}
 }
 
 // FreshCase: many freshly opened indexes, each used for the first time by
@@ -852,6 +932,8 @@ func TestQuick(t *testing.T) {
 	runFresh(t, &FreshCase{Attempts: 700, Readers: 4, Queriers: 4})
 	bigFirstUse(t, 70001, 6, fix.OpenCfg{CacheCap: -1})
 	runNewCache(t, &NewCacheCase{Attempts: 20000, Goroutines: 4})
+	runCopy(t, &CopyCase{Rounds: 3000, Open: fix.OpenCfg{CacheCap: -1}})
+	runCopy(t, &CopyCase{Rounds: 3000, Open: fix.OpenCfg{Preload: true, CacheCap: 1 << 22}})
 	fix.Check(t, "rawcache", 120, func(rt *rapid.T) { runCache(rt, drawCacheCase(rt)) })
 	fix.Check(t, "inprocess", 30, func(rt *rapid.T) { run(rt, drawCase(rt, 5000, false), "inprocess") })
 	fix.Check(t, "server", 3, func(rt *rapid.T) { run(rt, drawCase(rt, 5000, true), "server") })
@@ -867,6 +949,8 @@ func TestThorough(t *testing.T) {
 		bigFirstUse(t, 70001, 4+4*shard, fix.OpenCfg{Preload: shard == 1, CacheCap: int64(shard-1) * (1 << 20)})
 	}
 	runNewCache(t, &NewCacheCase{Attempts: 60000, Goroutines: 4})
+	runCopy(t, &CopyCase{Rounds: 12000, Open: fix.OpenCfg{CacheCap: -1}})
+	runCopy(t, &CopyCase{Rounds: 12000, Open: fix.OpenCfg{Preload: true, CacheCap: 1 << 22}})
 	fix.Check(t, "rawcache", 300, func(rt *rapid.T) { runCache(rt, drawCacheCase(rt)) })
 	fix.Check(t, "inprocess", 150, func(rt *rapid.T) { run(rt, drawCase(rt, 20000, false), "inprocess") })
 	fix.Check(t, "server", 6, func(rt *rapid.T) { run(rt, drawCase(rt, 20000, true), "server") })
